@@ -227,6 +227,15 @@ func (c *coreScript) setMaxWithdrawals(n uint64) {
 	c.out.Op("PARAMS %d %d %d %d %d %d %d %d %d", c.pBetBatch, c.pBetMin, c.fee, c.pMinDeposit, c.pHouseFee, c.pMaxW, c.pMaxPart, c.pObBatch, c.pThr)
 }
 
+// setBetFee: governance changes the wager fee in mid-history (bets already placed keep the fee recorded on them)
+func (c *coreScript) setBetFee(fee int64) {
+	bp := c.e.App.BetKeeper.GetParams(c.e.Ctx)
+	bp.Constraints.Fee = sdkmath.NewInt(fee)
+	c.e.App.BetKeeper.SetParams(c.e.Ctx, bp)
+	c.fee = fee
+	c.out.Op("PARAMS %d %d %d %d %d %d %d %d %d", c.pBetBatch, c.pBetMin, c.fee, c.pMinDeposit, c.pHouseFee, c.pMaxW, c.pMaxPart, c.pObBatch, c.pThr)
+}
+
 func (c *coreScript) endBlock() {
 	c.out.Op("EB")
 	preD := dumpCore(c.e, c.ix)
@@ -425,6 +434,36 @@ func runCoreScripted(seed uint64, n int, out *Out) {
 			c.withdraw(m, 1, 1, 2, 100)
 			c.withdraw(m, 1, 1, 2, 100)
 			c.endBlock()
+		},
+		// 11: the wager fee changes while bets are pending: bets placed at fee 0, then the fee is raised, more bets, one
+		//     market declared and one cancelled; then the other direction (placed at fee 2, fee lowered to 0). Every bet
+		//     settles and refunds with the fee recorded on it, not with the parameter of the day
+		func(h int) {
+			c := newCoreScript(out, h, 100, 0, 5, 0, 0, 1, 1)
+			m1 := c.market(2)
+			m2 := c.market(2)
+			c.deposit(m1, 1, 10000)
+			c.deposit(m2, 2, 10000)
+			c.wager(m1, 6, 0, "2", 100)
+			c.wager(m2, 7, 0, "2", 100)
+			c.setBetFee(2)
+			c.wager(m1, 8, 1, "3", 100)
+			c.wager(m2, 9, 1, "3", 100)
+			c.endBlock()
+			c.resolve(m1, 5, 0)
+			c.resolve(m2, 3, 0)
+			for i := 0; i < 6; i++ {
+				c.endBlock()
+			}
+			m3 := c.market(2)
+			c.deposit(m3, 3, 10000)
+			c.wager(m3, 6, 0, "2", 100)
+			c.setBetFee(0)
+			c.wager(m3, 7, 1, "2", 100)
+			c.resolve(m3, 4, 0)
+			for i := 0; i < 4; i++ {
+				c.endBlock()
+			}
 		},
 	}
 	for h, f := range scripts {
